@@ -6,6 +6,7 @@ from .prune import is_call
 
 LEVEL = 'proof'
 RULES = {
+    'C11.R6': 'an "optimal" point outside the polytope is recognised by Polytope::contains: every row within the documented 1e-8 tolerance, on the raw (not normalised) distances (shared with C14.R1)',
     'C11.R5': 'the links, leaf flags and node set that stay well-formed when the LP misbehaves are what the arena mutators maintain as their effect contracts say (shared with C12.R2)',
     'C11.R4': helpers.RULE_TEXT,
     'C11.R1': 'status->verdict tables: Infeasible verdicts / false edges only in the PolytopeStatus::Infeasible arm (or cached Infeasible); '
@@ -14,7 +15,7 @@ RULES = {
               'neither does any arm that matches on a cached node state which only a fault arm produces (Feasible after an Unbounded answer)',
     'C11.R3': 'less pruning only: no removal and no cached witness can be produced from a fault arm (removal-site and witness-guard rules)',
 }
-FLOORS = {'C11.R5': 15, 'C11.R4': 6, 'C11.R1': 9, 'C11.R2': 6, 'C11.R3': 13}
+FLOORS = {'C11.R6': 3, 'C11.R5': 15, 'C11.R4': 6, 'C11.R1': 9, 'C11.R2': 6, 'C11.R3': 13}
 EXPLANATION = ('The fault arms are unreachable with minilp, which is why no test executes them; they are examined directly: '
                'for every tree and every subset/position of faulty LP answers no fault arm can produce a removal, an Infeasible verdict, '
                'an unchecked witness or a panic.')
@@ -161,6 +162,7 @@ def r1_callers(ctx):
 
 def run(ctx):
     helpers.run_for(ctx)
+    helpers.share_from(ctx, 'c14', 'C11.R6', ['AffFuncBase::contains', 'AffFuncBase::distance'])
     helpers.share_arena_contracts(ctx, 'C11.R5')
     prune.check_infeasible_provenance(ctx, 'C11.R1')
     prune.check_edge_feasible_table(ctx, 'C11.R1')
